@@ -2,6 +2,9 @@
    service used by the C++ sweep harness (every real reply is judged by the extracted chk_sweep). *)
 let commas s = if s = "-" || s = "" then [] else String.split_on_char ',' s
 let parse_req (s : string) : request * bool =
+  (* an optional "depth@" prefix says the request is sent from inside a completion callback; the model is
+     sequential, requests are listed in the order in which they are executed *)
+  let s = match String.index_opt s '@' with Some i -> String.sub s (i + 1) (String.length s - i - 1) | None -> s in
   match String.split_on_char ',' s with
   | src :: dst :: tn :: port :: sub :: cc :: pid :: data :: rest ->
     ({ q_src = n_of_string src; q_dst = n_of_string dst; q_tn = n_of_int (ios tn);
